@@ -402,6 +402,19 @@ def gen_cases(rng, tier):
         out.append(Case("h%d" % i, [["new"]] + [h2conv_op(rng) for _ in range(rng.randint(1, 3))], {}))
     for i in range({"quick": 120, "thorough": 2000, "search": 400}.get(tier, 120)):
         out.append(Case("ht%d" % i, [["new"]] + [h2convt_op(rng) for _ in range(rng.randint(1, 3))], {}))
+    # the same response arriving in two reads, the cut inside the trailer section (fix 7f45d68: a header group is
+    # only started when the Flags block that closes it is queued); at least two windows
+    for i in range({"quick": 80, "thorough": 1500, "search": 300}.get(tier, 80)):
+        ops = []
+        for _ in range(rng.randint(1, 3)):
+            op = h2convt_op(rng)
+            while len(op) - op.index("C") - 1 < 1 or op.index("C") - op.index("W") - 1 < 2:
+                op = h2convt_op(rng)
+            op[0] = "h2convt2"
+            if op[3] == 0:
+                op[3] = 2
+            ops.append(op)
+        out.append(Case("hs%d" % i, [["new"]] + ops, {}))
     # the real FrontRustls over loopback with a rustls client that keeps reading; limits and
     # sizes are multiples of 256 (the model scales by 256), totals on both sides of the limit
     for i in range({"quick": 12, "thorough": 120, "search": 30}.get(tier, 12)):
@@ -449,6 +462,8 @@ def corpus_cases():
 
 def nontrivial(case, o):
     names = [op[0] for op in case.ops]
+    if "h2convt2" in names:
+        return any(op[0] == "h2convt2" and ob and "T" in ob for op, ob in zip(case.ops, o["obs"]))
     if "h2convt" in names:
         # the trailers went out after a body that needed more than one round
         return any(op[0] == "h2convt" and op[3] >= 1 and ob and "T" in ob and ob.count("R") >= 2 for op, ob in zip(case.ops, o["obs"]))
